@@ -199,3 +199,107 @@ Proof.
   destruct (block_of c A_VIS p HL V) as [A1 _]. destruct (block_of c A_W p HL W) as [A2 _].
   destruct (block_of c A_WC p HL WC) as [A3 _]. rewrite A1, A2, A3, orb_assoc. reflexivity.
 Qed.
+
+(* ---------- flag bits ---------- *)
+Definition any_lost (c : cfg) (p : list Z) : bool :=
+  lost_in c A_FLAGS p || lost_in c A_VIS p || lost_in c A_W p || lost_in c A_WC p.
+
+(* data_lost is set exactly where something was lost (or where the stored flags already had it);
+   every other bit is the stored bit when the flags chunk itself is present, and 0 when it is absent *)
+Lemma flag_bits c p : cfg_ok c p ->
+  Z.testbit (model_flags c p) 3 = any_lost c p || (negb (lost_in c A_FLAGS p) && Z.testbit (stored c A_FLAGS p) 3) /\
+  forall i, 0 <= i -> i <> 3 ->
+    Z.testbit (model_flags c p) i = negb (lost_in c A_FLAGS p) && Z.testbit (stored c A_FLAGS p) i.
+Proof.
+  intro OK. rewrite (flags_model_is_spec c p OK). unfold spec_flags, any_lost. rewrite data_lost_is_bit3.
+  assert (B8 : forall i, 0 <= i -> Z.testbit 8 i = Z.eqb i 3).
+  { intros i Hi. change 8 with (2 ^ 3). rewrite Z.pow2_bits_eqb by lia. apply Z.eqb_sym. }
+  split.
+  - rewrite Z.lor_spec.
+    destruct (lost_in c A_FLAGS p), (lost_in c A_VIS p), (lost_in c A_W p), (lost_in c A_WC p);
+      cbn [orb negb andb]; rewrite ?B8, ?Z.bits_0 by lia; cbn; rewrite ?orb_true_r, ?orb_false_r; reflexivity.
+  - intros i Hi N. rewrite Z.lor_spec.
+    assert (E : Z.testbit 8 i = false) by (rewrite B8 by lia; apply Z.eqb_neq; exact N).
+    destruct (lost_in c A_FLAGS p), (lost_in c A_VIS p), (lost_in c A_W p), (lost_in c A_WC p);
+      cbn [orb negb andb]; rewrite ?E, ?Z.bits_0; cbn; rewrite ?orb_false_r; reflexivity.
+Qed.
+
+(* ---------- intersect_1d, as stated in the design ---------- *)
+Lemma intersect_1d_tiles old new : allpos old -> allpos new -> zsum old = zsum new ->
+  length (intersect_1d old new) = length new /\
+  (forall j pc, In pc (nth j (intersect_1d old new) []) -> piece_ok old pc) /\
+  (forall x, 0 <= x < zsum old -> forall j,
+     cov1 (nth j (intersect_1d old new) []) (loc old 0 x) = Nat.eqb j (fst (loc new 0 x))).
+Proof.
+  intros Po Pn Hs. split; [apply inter_length|]. split.
+  - intros j pc Hin. destruct (Nat.lt_ge_cases j (length new)) as [Hj|Hj].
+    + assert (St : state_ok old 0 0).
+      { unfold state_ok. destruct old as [|c t]; [right; auto|left]. inversion Po; subst. simpl. split; lia. }
+      destruct (inter_spec new old 0%nat 0 Po Pn St ltac:(unfold cstart; simpl; lia) j Hj) as [A _].
+      rewrite Forall_forall in A. apply A. exact Hin.
+    + unfold intersect_1d in Hin. rewrite nth_overflow in Hin by (rewrite inter_length; lia). destruct Hin.
+  - intros x Hx j. apply intersect_1d_cov; auto.
+Qed.
+
+(* ---------- the hypotheses are satisfiable: a 3x4x2 store, independent chunkings, preselected dumps 1..2 ---------- *)
+Definition ex_cfg : cfg :=
+  {| c_chunks := [ [[2;1]; [1;3]; [2]]; [[1;2]; [4]; [1;1]]; [[3]; [2;2]; [2]]; [[1;1;1]; [3;1]] ];
+     c_win := [Some (1, 3)];
+     c_miss := fun a id => match a, id with 0%nat, [2; 1; 0] => true | 3%nat, [1; 0] => true | _, _ => false end;
+     c_dat := fun a pos => 1 + Z.of_nat a + lin [3;4;2] pos |}.
+
+Lemma ex_cfg_ok : cfg_ok ex_cfg [1; 2; 1].
+Proof.
+  unfold cfg_ok, arr_ok, nd, arr_chunks, allpos. cbn.
+  repeat match goal with
+         | |- _ /\ _ => split
+         | |- Forall _ _ => constructor
+         | |- True => exact Logic.I
+         end; try lia; try reflexivity; unfold allpos; repeat constructor.
+Qed.
+
+Lemma ex_cfg_values :
+  model_flags ex_cfg [1; 2; 1] = Z.lor (stored ex_cfg A_FLAGS [1; 2; 1]) 8 /\ model_vis ex_cfg [1; 2; 1] = 0 /\
+  model_flags ex_cfg [0; 2; 1] = stored ex_cfg A_FLAGS [0; 2; 1] /\ model_vis ex_cfg [0; 2; 1] <> 0.
+Proof. vm_compute. repeat split; discriminate. Qed.
+
+(* ---------- phantom dumps (_align_chunk_info) ---------- *)
+Lemma loc_ones : forall k i y, 0 <= y < Z.of_nat k -> loc (repeat 1 k) i y = ((i + Z.to_nat y)%nat, 0).
+Proof.
+  induction k as [|k IH]; intros i y H; [lia|].
+  cbn [repeat loc]. destruct (y <? 1) eqn:E.
+  - assert (y = 0) by lia. subst. f_equal. simpl. lia.
+  - rewrite IH by lia. f_equal. lia.
+Qed.
+
+Lemma cstart_ones : forall k j, (j <= k)%nat -> cstart (repeat 1 k) j = Z.of_nat j.
+Proof.
+  induction k as [|k IH]; intros j H.
+  - replace j with 0%nat by lia. reflexivity.
+  - destruct j as [|j]; [reflexivity|]. cbn [repeat]. rewrite cstart_cons, IH by lia. lia.
+Qed.
+
+Lemma phantom_chunk_start t k y : allpos t -> 0 <= y < Z.of_nat k ->
+  chunk_start (t ++ repeat 1 k) (zsum t + y) = zsum t + y.
+Proof.
+  intros P H. unfold chunk_start. rewrite loc_app_pre by (auto; lia). rewrite loc_ones by lia. cbn [fst].
+  rewrite <- (app_nil_r (repeat 1 k)). rewrite Nat.add_0_l, cstart_app by (rewrite repeat_length; lia).
+  rewrite cstart_ones by lia. lia.
+Qed.
+
+(* an element whose dump index lies beyond the dumps written for array a is covered, after alignment, by a
+   one-dump phantom chunk which the store reports absent *)
+Lemma phantom_lost orig lost a t rest g0 g' :
+  nth a orig [] = t :: rest -> allpos t -> zsum t <= g0 < max_dumps orig ->
+  store_missing orig lost a (chunk_id (nth a (align orig) []) (g0 :: g')) = true.
+Proof.
+  intros E P H. unfold store_missing, align.
+  assert (EQ : nth a (map (align_one (max_dumps orig)) orig) [] = align_one (max_dumps orig) (nth a orig []))
+    by (exact (map_nth (align_one (max_dumps orig)) orig [] a)).
+  rewrite EQ, E.
+  assert (CS : chunk_start (t ++ repeat 1 (Z.to_nat (max_dumps orig - zsum t))) g0 = g0).
+  { replace g0 with (zsum t + (g0 - zsum t)) at 1 by lia.
+    rewrite phantom_chunk_start by (auto; lia). lia. }
+  cbn [align_one chunk_id combine map fst snd hd]. rewrite !CS.
+  unfold n_dumps. cbn [hd]. apply orb_true_iff. right. lia.
+Qed.
